@@ -174,6 +174,54 @@ impl C10 {
     }
 }
 
+impl C10 {
+    /// forked: positions so large that amount x multiplier approaches 2^128 (LP balances are minted
+    /// straight into the bank for this). Whatever is accepted must lie on the curve, and the total
+    /// must keep covering the users.
+    fn huge_probe(&mut self, w: &mut World, s: &Step, rep: &mut Reporter) {
+        let cur = match s.fpost.epoch {
+            Some(e) => e,
+            None => return,
+        };
+        let lp = match s.post.pools.values().next() {
+            Some(p) => p.info.lp_denom.clone(),
+            None => return,
+        };
+        let cfg = &s.fpost.cfg;
+        if cfg.max_unlocking_duration < 31_556_926 || cfg.min_unlocking_duration > 31_556_926 {
+            return;
+        }
+        let snap = w.snapshot();
+        let fm_addr = w.fm.to_string();
+        let users: Vec<cosmwasm_std::Addr> = w.users.iter().take(3).cloned().collect();
+        let e37 = 10u128.pow(37);
+        let plan: [(usize, u128); 4] = [(0, e37), (1, 22 * e37 / 10), (2, 15 * e37 / 10), (1, 3 * e37 / 10)];
+        for (k, (ui, amount)) in plan.iter().enumerate() {
+            let u = &users[*ui % users.len()];
+            w.mint_to(u, coin(*amount, lp.clone()));
+            let before = fobserve(w);
+            let own_before = before.weights.get(&(u.to_string(), lp.clone())).and_then(|h| h.iter().next_back().map(|(_, x)| *x)).unwrap_or(0);
+            let out = w.apply(&pos_op(u, PositionAction::Create { identifier: Some(format!("huge{}x{k}", s.idx)), unlocking_duration: 31_556_926, receiver: None }, vec![coin(*amount, lp.clone())]));
+            if !out.is_ok() {
+                rep.held("curve", hash_of(&("huge_refused", k)), || json!({"amount": amount.to_string(), "duration": 31_556_926, "result": out.short()}));
+                continue;
+            }
+            let f = fobserve(w);
+            let own = f.weights.get(&(u.to_string(), lp.clone())).and_then(|h| h.iter().next_back().map(|(_, x)| *x)).unwrap_or(0);
+            self.check_curve_point(*amount, 31_556_926, own.saturating_sub(own_before), rep, "forked huge position");
+            // the total for the pending epoch covers the users
+            let total = weight_at(f.weights.get(&(fm_addr.clone(), lp.clone())), cur + 1);
+            let sum: BigInt = f.weights.iter().filter(|((a, d), _)| *a != fm_addr && *d == lp).map(|(_, h)| bi(weight_at(Some(h), cur + 1))).sum();
+            if bi(total) < sum {
+                rep.failed("total_ge_sum", None, format!("after a position of {amount} LP: total weight {total} < sum of users {sum}"), witness(json!({"lp": lp, "total": total.to_string(), "sum_users": sum.to_string()})));
+            } else {
+                rep.held("total_ge_sum", hash_of(&("huge", k)), || json!({"lp": lp, "total": total.to_string(), "sum_users": sum.to_string(), "after": "a position of the order of 1e37 LP"}));
+            }
+        }
+        w.restore(&snap);
+    }
+}
+
 fn lp_denoms(f: &FObs) -> BTreeSet<String> {
     f.weights.keys().map(|(_, d)| d.clone()).collect()
 }
@@ -328,6 +376,9 @@ impl Monitor for C10 {
         }
         if s.idx % self.sweep_every == self.sweep_every - 1 {
             self.sweep(w, s, rep);
+        }
+        if s.idx % (2 * self.sweep_every) == self.sweep_every + 7 {
+            self.huge_probe(w, s, rep);
         }
         let _ = (fobserve as fn(&World) -> FObs, ToPrimitive::to_u64(&0u8));
     }
